@@ -263,6 +263,25 @@ func c04judge(c *Check, env *Env, cf c04cfg, topo *Topo, phase string) {
 	}
 	slotsSeen := map[int]bool{}
 	cmdsSeen := map[string]bool{}
+	// per backend connection: position of the first READONLY and of the first valid AUTH
+	type hs struct{ ro, auth int }
+	hsOf := map[*BConn]hs{}
+	handshake := func(bc *BConn) hs {
+		if h, ok := hsOf[bc]; ok {
+			return h
+		}
+		h := hs{ro: 1 << 30, auth: 1 << 30}
+		for _, q := range bc.Requests() {
+			if q.Cmd == "readonly" && q.Seq < h.ro {
+				h.ro = q.Seq
+			}
+			if q.Cmd == "auth" && q.Arg(1) == cf.password && q.Seq < h.auth {
+				h.auth = q.Seq
+			}
+		}
+		hsOf[bc] = h
+		return h
+	}
 	for _, r := range env.Cl.Log() {
 		ci, ok := CmdTable[r.Cmd]
 		if !ok {
@@ -297,15 +316,7 @@ func c04judge(c *Check, env *Env, cf c04cfg, topo *Topo, phase string) {
 			}
 			c.Count("reads_at_replicas", 1)
 			// READONLY before this request on its connection
-			ro := false
-			for _, q := range r.Conn.Requests() {
-				if q == r {
-					break
-				}
-				if q.Cmd == "readonly" {
-					ro = true
-				}
-			}
+			ro := handshake(r.Conn).ro < r.Seq
 			if !ro {
 				var hist []string
 				for i, q := range r.Conn.Requests() {
@@ -322,15 +333,7 @@ func c04judge(c *Check, env *Env, cf c04cfg, topo *Topo, phase string) {
 			c.Count("commands_at_masters", 1)
 		}
 		if cf.password != "" {
-			au := false
-			for _, q := range r.Conn.Requests() {
-				if q == r {
-					break
-				}
-				if q.Cmd == "auth" && q.Arg(1) == cf.password {
-					au = true
-				}
-			}
+			au := handshake(r.Conn).auth < r.Seq
 			if !au {
 				c.Violate(Violation{Class: "data-before-AUTH", Shape: phase, Detail: "data command on a connection that did not AUTH first", Witness: wit})
 				continue
